@@ -7,6 +7,10 @@ structure Maps where
   mixed : AddrMap := AddrMap.empty
   relay : AddrMap := AddrMap.empty
   custom : AddrMap := AddrMap.empty
+  -- the socket's typed tables (driven by the `G` / `x` ops), same model, separate state
+  tMixed : AddrMap := AddrMap.empty
+  tRelay : AddrMap := AddrMap.empty
+  tCustom : AddrMap := AddrMap.empty
 
 def kindOf? : String → Option Kind
   | "m" => some .mixed | "r" => some .relay | "c" => some .custom | _ => none
@@ -47,6 +51,29 @@ def stepOp (ms : Maps) (op : String) : Maps × String :=
     | [fam, h] =>
       match bytesOfHex h with
       | some a => (ms, kindName (classify (fam == "4") a))
+      | none => (ms, "bad-op")
+    | _ => (ms, "bad-op")
+  | ["G", k, key, cands] =>
+    match kindOf? k, key.toNat?, (cands.splitOn ",").mapM hexNat? with
+    | some k, some key, some cs =>
+      let cur := match k with | .mixed => ms.tMixed | .relay => ms.tRelay | _ => ms.tCustom
+      match C18.get cur k key cs with
+      | some (m', a, n) =>
+        let ms' := match k with
+          | .mixed => { ms with tMixed := m' } | .relay => { ms with tRelay := m' } | _ => { ms with tCustom := m' }
+        (ms', s!"{hexOfBytes a}:{Generated.C18.mappedPort}:{n}")
+      | none => (ms, "exhausted")
+    | _, _, _ => (ms, "bad-op")
+  | ["x", fa, _port] =>
+    match fa.splitOn ":" with
+    | [fam, h] =>
+      match bytesOfHex h with
+      | some a =>
+        match toTransport ms.tRelay ms.tCustom (fam == "4") a with
+        | none => (ms, "none")
+        | some .ip => (ms, "ip")
+        | some (.relay k) => (ms, s!"relay:{k}")
+        | some (.custom k) => (ms, s!"custom:{k}")
       | none => (ms, "bad-op")
     | _ => (ms, "bad-op")
   | ["t", _, _, _] => (ms, "ok")
